@@ -1180,7 +1180,8 @@ main(int argc, char **argv) {
       {.tag = "blk", .mind = 1, .maxd = 3, .cmask = 3, .rmask = 3, .qmask = 3, .kinds = ALLK, .modes = 7, .rotate = 1, .fault_blocks = 1,
        .bound = 1, .need_r2 = 1, .qcanon = 1},
       {.tag = "vd", .mind = 1, .maxd = 3, .cmask = 3, .rmask = 1, .qmask = 1, .kinds = ALLK, .modes = 7, .verdicts = 1, .bound = 1},
-      {.tag = "sametok", .mind = 2, .maxd = 4, .cmask = 3, .rmask = 3, .qmask = 1, .kinds = ALLK, .modes = 7, .rotate = 1, .sametok = 1, .bound = 1},
+      {.tag = "sametok", .mind = 2, .maxd = 3, .cmask = 3, .rmask = 3, .qmask = 1, .kinds = ALLK, .modes = 7, .rotate = 1, .sametok = 1, .bound = 1},
+      {.tag = "sametok4", .mind = 4, .maxd = 4, .cmask = 3, .rmask = 1, .qmask = 1, .kinds = ALLK, .modes = 7, .rotate = 1, .sametok = 1, .bound = 1},
   };
   const struct family *fams = T ? thorough : quick;
   int nf = T ? (int)(sizeof thorough / sizeof thorough[0]) : (int)(sizeof quick / sizeof quick[0]);
